@@ -1774,7 +1774,13 @@ def _check_roundtrip(m0, m2, lay, edits, fails):
     fid = FID_UPD_TH if family == 'theta' else FID_UPD_RV
     label = _edit_label(lay['cls'], edits)
 
+    fam_label = _edit_label({'theta': '$THETA', 'omega': '$OMEGA', 'sigma': '$SIGMA'}[family], edits)
+
     def cl(c):
+        # naming / ordering clauses are keyed by record type only (systematic), the value-level
+        # clauses by layout class (so that one class cannot mask a violation in another)
+        if c in (R_NAMES, R_ORDER, R_RVNAMES):
+            return f'{fam_label}: {c}'
         return f'{label}: {c}'
 
     ctx = f"layout {lay['theta']!r} | {lay['omega']!r} | {lay['sigma']!r}, edits {edits}: "
